@@ -16,6 +16,7 @@ import Driver.Contracts
 import Driver.RewardsNode
 import Driver.Abi
 import Driver.Journal
+import Driver.Downloader
 /-
 One line per handler object. The first handler that understands a line answers it.
 -/
@@ -47,7 +48,8 @@ def registry : List Obj := [
   rewardsNodeObj,
   pureObj pureAbi,
   pureObj pureArRecv,
-  mkObj ({} : JrSt) jrStep
+  mkObj ({} : JrSt) jrStep,
+  mkObj ([] : DlAll) dlStep
 ]
 
 end ZV.Driver
